@@ -4,19 +4,20 @@ C10 for Compile + match as ONE statement about pattern text (the chain).
 Every link existed separately: `parse_total` (the parser model returns a tree or an ErrorCode for every rune
 list), `reduceTree_wf_partial` (the reducer keeps node shapes), `compilePattern_total_partial` (no writer error
 after a successful parse), `emit_vm_wf` / `emit_has_typing` / `emitted_no_fault` (for every `treeWf` tree the
-interpreter model never faults on any text).  This file states the composition and proves it from two named
-hypotheses on the parser's result:
+interpreter model never faults on any text).  This file states the composition and proves it from ONE named
+hypothesis on the parser's result (J3):
 
 * **J1 (proved, `Lemmas/ReduceCaps*.lean`)** the reducer never invents a group number: `Reduce.reduceTree_capsOk`;
   `boundsOk`, the third component of `treeWf`, is used by none of the interpreter theorems (`Lemmas.Chain.treeOk`).
-* **J2 (hypothesis `RawShapeOk`)** the raw tree has the node shapes the reducer assumes.  It is NOT a theorem of the
-  parser as it stands: under RE2 `(?<n>a)(?(?P=n)b)` parses into an ExprCond with ONE child (the `(` that should
-  open the condition is consumed as the Python backreference `(?P=n)`); `regexp2.Compile` panics on it
-  (`ComputeMinLength`, index out of range) — design.d/C10-chain.md, "suspected defects".
+* **J2 (proved, `parse_shape`; `Lemmas/ParserShape*.lean`, `ParserExact.lean`)** the raw tree has the node shapes the
+  reducer assumes.  It was NOT true of the parser before /repo debc02b: under RE2 `(?<n>a)(?(?P=n)b)` parsed into an
+  ExprCond with ONE child (the `(` that should open the condition was consumed as the Python backreference `(?P=n)`)
+  and `regexp2.Compile` panicked on it (`ComputeMinLength`, index out of range) — D50, found stating this joint.
 * **J3 (hypothesis `PrescanAgrees`)** the capture pre-scan and the main scan agree on the group numbers.
 
-Both hypotheses are decidable predicates on the parse result; `wfTree`, which the driver evaluates on every `ok`
-answer of legs Pr and Pl, implies them up to the table facts listed at `chain_hyps_of_wfTree`.
+`RawShapeOk` and `PrescanAgrees` are decidable predicates on the parse result; leg Pl evaluates both on every explored
+pattern; `wfTree`, which the drivers evaluate on every `ok` answer, implies them up to the table facts of
+`wfTree_gives_chain_hyps`.
 -/
 import RegexVerif.Props.C10Parser
 import RegexVerif.Lemmas.ChainBridge
@@ -51,8 +52,8 @@ theorem emitted_no_fault_of_caps (ti : Writer.TreeInfo) (root : Writer.GoNode) (
     ∃ s0, VM.init (Writer.emit ti root) pos = .ok s0 ∧ ∀ f, (VM.run (Writer.emit ti root) env fuel s0).1 ≠ .fault f :=
   emitted_no_fault' ti root (by simp [treeOk, hok, hcaps]) env pos h0 hn fuel
 
-/-- **C10 for Compile + match, conditional on J2 and J3.**  For EVERY pattern text (`pattern : List Nat`), option
-    set, `MaintainCaptureOrder` flag, parser oracle and reducer oracle: if the tree the parser returns (when it
+/-- **C10 for Compile + match from both decidable hypotheses** (`compile_and_run_no_fault_partial` below discharges
+    `hJ2`).  For EVERY pattern text (`pattern : List Nat`), option set, `MaintainCaptureOrder` flag, parser oracle and reducer oracle: if the tree the parser returns (when it
     returns one) has the parser's node shapes (`RawShapeOk`) and registered group numbers (`PrescanAgrees`), then
 
     * `compilePattern` (= `emit ∘ reduceTree ∘ parse`, the model of `regexp2.Compile`, tied to it stage by stage
@@ -63,11 +64,10 @@ theorem emitted_no_fault_of_caps (ti : Writer.TreeInfo) (root : Writer.GoNode) (
       kinds of `VM.Fault`: it returns, or is still running when the fuel ends;
     * the same for the bool-only program (`compilePatternQuick`) whenever it exists.
 
-    FULL STATEMENT (not provable as the code stands): the same without `hJ2`, `hJ3`.  `hJ2` fails on the
-    pattern `(?<n>a)(?(?P=n)b)` under RE2 (defect, see the file header).  `hJ3` needs a simulation between
-    `countCaptures` and `scanRegex`.  Both are evaluated by the driver on every `ok` answer of legs Pr / Pl
-    (`wfTree`, `okRawTree`, `treeWf` of the reduced tree: `Pl:wf`). -/
-theorem compile_and_run_no_fault_partial (pattern : List Nat) (opts : Parser.Opts) (mco : Bool)
+    This is the form that composes with any proof of the two joints: `hJ2` is `parse_shape` (proved below; it was false
+    before /repo debc02b — `(?<n>a)(?(?P=n)b)` under RE2, D50), `hJ3` is open.  Both are evaluated by leg Pl on every
+    explored pattern (`Pl:wf`, fifth bit). -/
+theorem compile_and_run_no_fault_of_hyps (pattern : List Nat) (opts : Parser.Opts) (mco : Bool)
     (orc : Parser.Oracles) (rorc : Orc)
     (hJ2 : ∀ t, Parser.parse { pat := pattern, opts := opts, mco := mco, orc := orc } = .ok t → RawShapeOk t = true)
     (hJ3 : ∀ t, Parser.parse { pat := pattern, opts := opts, mco := mco, orc := orc } = .ok t → PrescanAgrees t = true) :
@@ -94,32 +94,48 @@ theorem compile_and_run_no_fault_partial (pattern : List Nat) (opts : Parser.Opt
     rw [hc.1, hc.2]
     exact ⟨⟨c, rfl⟩, ⟨c, rfl⟩⟩
 
-/-- **J2, the unconditional part: the raw tree has the parser's node shapes, except for the condition of an ExprCond.**
-    For every pattern, option set, oracle and every fuel above the pattern length: if `Parse` returns a tree, every node of
-    it (`Parser.shp`) has a known node type with the child count the reducer assumes — leaves have no children, a
-    Loop / Lazyloop / Capture / Group / lookaround / Atomic exactly one, an Alternate at least one unless it is the empty
-    alternation of `()`, a BackRefCond one or two, an ExprCond one to three (a Concatenate any number).  The one thing
-    NOT proved is that an ExprCond has at least TWO children, i.e. that it always receives its condition (`condsOK`):
-    that is what /repo debc02b (D50) repaired, and it needs the position-exact argument "after `(?(` the next turn opens
-    the condition group".  Proof: a tree invariant (`Parser.TreeInv`: group / alternation / concatenation under
-    construction, the unit, every frame of the group stack) through every tree-building operation, in a
-    partial-correctness logic over the parser monad (`Lemmas/ParserShape*.lean`); the scanners contribute value facts
-    only (`ret_scanBackslash`, `ret_scanGroupOpen`, …: a leaf / a childless group node, whatever the state). -/
-theorem parse_weak_shape (pat : List Nat) (opts : Parser.Opts) (mco : Bool) (orc : Parser.Oracles) (fuel : Nat)
+/-- **J2: the raw tree has the node shapes the reducer assumes.**  For every pattern, option set, oracle and every
+    fuel above the pattern length: if `Parse` returns a tree, every node of it has a known node type with the child count
+    `Reduce.okRaw` asks for — leaves have no children, a Loop / Lazyloop / Capture / Group / lookaround / Atomic exactly
+    one, an Alternate at least one unless it is the empty alternation of `()`, a BackRefCond one or two, an ExprCond two or
+    three (its condition first), a Concatenate any number.
+    Proof (`Lemmas/ParserShape*.lean`): a partial-correctness logic over the parser monad (`H P m Q`; `H.of_wp` imports the
+    specifications of the totality proof); value facts of the node-returning scanners (`ret_scanBackslash`,
+    `ret_scanGroupOpen`, …: a leaf / a childless group node, whatever the state); a tree invariant (`TreeInv`: group /
+    alternation / concatenation under construction, the unit, every frame of the group stack) through every tree-building
+    operation; and, for the condition of an ExprCond (`Lemmas/ParserExact.lean`): after `(?(` the parser stands on the
+    inner `(` with `ignoreNextParen` set (`scanGroupOpen_rew`), the next turn skips nothing (`stepRun_atParen`), does not
+    take that paren for the RE2 backreference `(?P=name)` (`stepIsPythonRef_ignore` — the repair of /repo debc02b, D50:
+    before it this theorem was false) and opens a group (`scanGroupOpen_some`: the default case re-reads a rune that is not
+    `)`, because `(?)` counts as a plain group), so `addGroup` never closes an ExprCond that still waits for its
+    condition. -/
+theorem parse_tree_shape (pat : List Nat) (opts : Parser.Opts) (mco : Bool) (orc : Parser.Oracles) (fuel : Nat)
     (hf : pat.length < fuel) (t : Parser.RawTree)
     (h : Parser.parseFuel { pat := pat, opts := opts, mco := mco, orc := orc } fuel = .ok t) : Parser.shp t.root = true :=
   Parser.shp_parseFuel _ fuel hf t h
 
-/-- **J2 up to the residual condition**: `parse E = .ok t → condsOK t.root → RawShapeOk t` -/
-theorem parse_shape_partial (E : Parser.Env) (t : Parser.RawTree) (h : Parser.parse E = .ok t)
-    (hc : Parser.condsOK t.root = true) : RawShapeOk t = true :=
-  Parser.rawShapeOk_of_parse E t h hc
+/-- **J2 at the reducer's interface**: `parse E = .ok t → RawShapeOk t` — the hypothesis of `reduceTree_wf_partial`,
+    `compilePattern_total_partial` (Props/C01.lean) and of J1 holds for every tree the parser returns. -/
+theorem parse_shape (E : Parser.Env) (t : Parser.RawTree) (h : Parser.parse E = .ok t) : RawShapeOk t = true :=
+  Parser.rawShapeOk_of_parse E t h
 
-/-- **The chain with J2 reduced to its residue.**  As `compile_and_run_no_fault_partial`, with `RawShapeOk` replaced by
-    what is left of it: every ExprCond of the raw tree has its condition (`condsOK`). -/
-theorem compile_and_run_no_fault_partial2 (pattern : List Nat) (opts : Parser.Opts) (mco : Bool)
+/-- **C10 for Compile + match, conditional on J3 only.**  For EVERY pattern text (`pattern : List Nat`), option set,
+    `MaintainCaptureOrder` flag, parser oracle and reducer oracle: if the tree the parser returns (when it returns one)
+    has registered group numbers (`PrescanAgrees`: every group number of a Ref / BackRefCond / Capture maps to a slot of
+    the capture array the writer allocates; evaluated by leg Pl on every explored pattern), then
+
+    * `compilePattern` (= `emit ∘ reduceTree ∘ parse`, the model of `regexp2.Compile`, tied to it stage by stage
+      by leg Pl) returns a program or a PARSE error — never a parser fault, never fuel exhaustion, never a writer error;
+    * every attempt of the compiled program — every text, `\G` origin, interpreter oracle set (`env`), start position
+      inside the text and number of iterations — starts and never ends in a fault of any of the thirteen kinds of
+      `VM.Fault`: it returns, or is still running when the fuel ends;
+    * the same for the bool-only program (`compilePatternQuick`) whenever it exists.
+
+    FULL STATEMENT (not proved): the same without `hJ3`.  It needs a simulation between `countCaptures` and `scanRegex`
+    (every number the main scan hands out was registered by the pre-scan) and — in the model, where a pattern is an
+    unbounded rune list — a bound on the pattern length (`noteCaptureSlot`'s `MaxInt32` case: design.d/C10-chain.md). -/
+theorem compile_and_run_no_fault_partial (pattern : List Nat) (opts : Parser.Opts) (mco : Bool)
     (orc : Parser.Oracles) (rorc : Orc)
-    (hCond : ∀ t, Parser.parse { pat := pattern, opts := opts, mco := mco, orc := orc } = .ok t → Parser.condsOK t.root = true)
     (hJ3 : ∀ t, Parser.parse { pat := pattern, opts := opts, mco := mco, orc := orc } = .ok t → PrescanAgrees t = true) :
     (match compilePattern rorc { pat := pattern, opts := opts, mco := mco, orc := orc } with
      | .error e => ∃ code, e = .parse code
@@ -130,8 +146,15 @@ theorem compile_and_run_no_fault_partial2 (pattern : List Nat) (opts : Parser.Op
      | .ok none => True
      | .ok (some qp) => ∀ (env : VM.Env) (pos : Int) (fuel : Nat), 0 ≤ pos → pos ≤ env.len →
          ∃ s0, VM.init qp pos = .ok s0 ∧ ∀ f, (VM.run qp env fuel s0).1 ≠ .fault f) :=
-  compile_and_run_no_fault_partial pattern opts mco orc rorc
-    (fun t ht => Parser.rawShapeOk_of_parse _ t ht (hCond t ht)) hJ3
+  compile_and_run_no_fault_of_hyps pattern opts mco orc rorc (fun t ht => Parser.rawShapeOk_of_parse _ t ht) hJ3
+
+/-- **Compile never ends in a writer error, a parser fault or fuel exhaustion** — for every pattern text, with no
+    hypothesis left (J2 + the shape theorem of the reducer): `compilePattern` returns a program or a parse error. -/
+theorem compilePattern_total (E : Parser.Env) (rorc : Orc) :
+    (∃ prog, compilePattern rorc E = .ok prog) ∨ (∃ code, compilePattern rorc E = .error (.parse code)) := by
+  rcases parse_total' E with ⟨t, hp⟩ | ⟨c, hp⟩
+  · exact Or.inl ⟨_, (compilePattern_ok rorc E t hp (Parser.rawShapeOk_of_parse E t hp)).1⟩
+  · exact Or.inr ⟨c, (compilePattern_error rorc E c hp).1⟩
 
 /-- the same from the evaluated check -/
 theorem compile_and_run_no_fault_checked (E : Parser.Env) (rorc : Orc) (h : chainHypB E = true) :
@@ -143,7 +166,7 @@ theorem compile_and_run_no_fault_checked (E : Parser.Env) (rorc : Orc) (h : chai
     intro t ht
     simp only [chainHypB, ht, Bool.and_eq_true] at h
     exact h
-  exact (compile_and_run_no_fault_partial E.pat E.opts E.mco E.orc rorc (fun t ht => (hh t ht).1) (fun t ht => (hh t ht).2)).1
+  exact (compile_and_run_no_fault_of_hyps E.pat E.opts E.mco E.orc rorc (fun t ht => (hh t ht).1) (fun t ht => (hh t ht).2)).1
 
 /-- **`wfTree` gives J2 and J3.**  A raw tree that passes the decidable `Parser.wfTree` — what the driver evaluates on
     every `ok` answer of leg Pr, and what `parse_wf` (not proved: `parse_wf_partial` gives the root) says of every tree
@@ -170,7 +193,7 @@ theorem compile_and_run_no_fault_of_wfTree (pattern : List Nat) (opts : Parser.O
      | .ok none => True
      | .ok (some qp) => ∀ (env : VM.Env) (pos : Int) (fuel : Nat), 0 ≤ pos → pos ≤ env.len →
          ∃ s0, VM.init qp pos = .ok s0 ∧ ∀ f, (VM.run qp env fuel s0).1 ≠ .fault f) :=
-  compile_and_run_no_fault_partial pattern opts mco orc rorc
+  compile_and_run_no_fault_of_hyps pattern opts mco orc rorc
     (fun t ht => (chain_hyps_of_wfTree t (hwf t ht).1 (hwf t ht).2.1 (hwf t ht).2.2).1)
     (fun t ht => (chain_hyps_of_wfTree t (hwf t ht).1 (hwf t ht).2.1 (hwf t ht).2.2).2)
 
@@ -220,12 +243,10 @@ example : ∃ s0, VM.init (Writer.emit (treeInfo false chainDemo) (reduceTree ch
   emitted_no_fault_of_caps _ _ (reduceTree_keeps_caps chainOrc true false chainDemo (by decide) (by decide)).1
     (reduceTree_keeps_caps chainOrc true false chainDemo (by decide) (by decide)).2 Lemmas.VM.demoEnv 1 (by decide) (by decide) 1000
 
-/-- the residual condition and the weak shape, evaluated: they hold on both trees; an ExprCond with one child — the tree
-    `(?<n>a)(?(?P=n)b)` had before /repo debc02b — has the weak shape and fails `condsOK` and `RawShapeOk` -/
-example : Parser.condsOK chainDemo.root = true ∧ Parser.shp chainDemo.root = true ∧
-    Parser.condsOK chainDemoSparse.root = true ∧ Parser.shp chainDemoSparse.root = true := by decide
-example : Parser.shp (rawGroup .capture 0 (-1) [rawN .exprCond 0 0 [rawN .concatenate 0 0 []]]) = true ∧
-    Parser.condsOK (rawGroup .capture 0 (-1) [rawN .exprCond 0 0 [rawN .concatenate 0 0 []]]) = false ∧
+/-- the shape predicate of J2, evaluated: it holds on both trees; an ExprCond with one child — the tree
+    `(?<n>a)(?(?P=n)b)` had before /repo debc02b — fails it (and `RawShapeOk`) -/
+example : Parser.shp chainDemo.root = true ∧ Parser.shp chainDemoSparse.root = true := by decide
+example : Parser.shp (rawGroup .capture 0 (-1) [rawN .exprCond 0 0 [rawN .concatenate 0 0 []]]) = false ∧
     RawShapeOk { chainDemo with root := rawGroup .capture 0 (-1) [rawN .exprCond 0 0 [rawN .concatenate 0 0 []]] } = false := by
   decide
 
